@@ -14,7 +14,7 @@ CB_KINDS_SAFE = [None, "s", "a", "g"]
 POINTS = ["ws", "we", "wc", "ecb", "ccb", "it", "fa"]
 
 BASE_W = {
-    "spawn": 10, "gate": 22, "gate_x": 2, "run": 14, "idle": 8,
+    "spawn": 10, "gate": 22, "gate_x": 2, "gate_c": 1, "run": 14, "idle": 8,
     "cancel": 5, "cancel_group": 4, "cancel_all": 1, "stop": 3,
     "flush": 4, "gather": 1, "until_closed": 1, "lock": 1, "unlock": 1, "bad_spawn": 1,
     "read": 1,
@@ -22,8 +22,8 @@ BASE_W = {
 
 # per-property emphasis (multipliers on BASE_W) and knobs
 PROFILES = {
-    "C01": {"w": {"spawn": 1.6, "cancel": 1.2, "flush": 0.8}, "sizes": [0, 1, 1, 2, 2, 3, 4, None]},
-    "C02": {"w": {"cancel": 1.6, "cancel_group": 1.4, "flush": 1.8, "gate_x": 2.0}, "cb": CB_KINDS},
+    "C01": {"w": {"spawn": 1.6, "cancel": 1.2, "flush": 0.8, "gate_c": 3.0}, "sizes": [0, 1, 1, 2, 2, 3, 4, None]},
+    "C02": {"w": {"cancel": 1.6, "cancel_group": 1.4, "flush": 1.8, "gate_x": 2.0, "gate_c": 3.0}, "cb": CB_KINDS},
     "C03": {"w": {"cancel": 1.8, "cancel_group": 1.4, "stop": 1.5, "flush": 1.2}, "cb": ["s", "a", "g", "g", "sx", None]},
     "C04": {"w": {"spawn": 1.5, "lock": 3.0, "gather": 2.0, "cancel": 0.7}, "kinds": ["apply", "apply", "apply", "map"], "simple": 0.45},
     "C05": {"w": {"spawn": 1.4, "cancel": 1.4, "gate": 1.3}, "kinds": ["map", "starmap", "doublestarmap", "map", "apply"], "simple": 0.0},
@@ -33,7 +33,7 @@ PROFILES = {
     "C09": {"w": {"bad_spawn": 14.0, "lock": 5.0, "unlock": 4.0, "gather": 3.0, "spawn": 1.3}},
     "C10": {"w": {"spawn": 2.0, "cancel_group": 3.0, "cancel_all": 1.5}, "named": 0.5},
     "C11": {"w": {"spawn": 2.0, "flush": 2.0}, "pools": [1, 2, 2, 3]},
-    "C12": {"w": {"gate_x": 5.0, "flush": 2.5, "gather": 3.0}, "cb": [None, "s", "sx", "ax", "gx", "a"], "fail": 0.4, "endx": 0.3},
+    "C12": {"w": {"gate_x": 5.0, "gate_c": 4.0, "flush": 2.5, "gather": 3.0}, "cb": [None, "s", "sx", "ax", "gx", "a"], "fail": 0.4, "endx": 0.3},
     "C13": {"w": {"flush": 7.0, "cancel": 2.0, "cancel_group": 1.5}, "cb": ["g", "g", "a", "s", None, "gx"]},
     "C14": {"w": {"stop": 8.0, "cancel": 2.0, "spawn": 1.5}, "simple": 1.0},
 }
@@ -51,7 +51,7 @@ class Gen:
             w[k] = w[k] * m
         # swarm: switch off a random subset of optional step kinds
         for k in ("cancel", "cancel_group", "cancel_all", "stop", "flush", "gather", "until_closed",
-                  "lock", "unlock", "bad_spawn", "gate_x"):
+                  "lock", "unlock", "bad_spawn", "gate_x", "gate_c"):
             if rng.random() < 0.25 and self.prof.get("w", {}).get(k, 0) < 2.0:
                 w[k] = 0
         self.w = w
@@ -212,6 +212,12 @@ class Gen:
         if not keys:
             return None
         return {"op": "gate", "key": list(self.rng.choice(keys)), "how": "x"}
+
+    def _g_gate_c(self, sim):
+        keys = [k for k in sim.pending_gates() if k[0] == "c"]
+        if not keys:
+            return None
+        return {"op": "gate", "key": list(self.rng.choice(keys)), "how": "c"}
 
     def _task_ref(self, t):
         return ["t", t.req.label, t.k]
